@@ -197,13 +197,17 @@ def estimate_line(index, e):
                   (47, 21, e['val'], 'r'), (69, 11, e['sd'], 'r')])
 
 
-def matrix_lines(Qt, tri):
+def matrix_lines(Qt, tri, omit_zero_lines=False):
+    """omit_zero_lines: records whose values are all exactly zero are left out (elements that are not given are zero: the
+    layout a zero-line removal produces and the format allows)."""
     n = len(Qt)
     out = []
     for i in range(n):
         cols = list(range(0, i + 1)) if tri == 'L' else list(range(i, n))
         for k in range(0, len(cols), 3):
             chunk = cols[k:k + 3]
+            if omit_zero_lines and all(float(Qt[i][j].replace('D', 'E')) == 0.0 for j in chunk):
+                continue
             f = [(1, 5, i + 1, 'r'), (7, 5, chunk[0] + 1, 'r')]
             for q, j in enumerate(chunk):
                 f.append((13 + 22 * q, 21, Qt[i][j], 'r'))
@@ -245,7 +249,12 @@ def write_lines(m):
               ' NUMBER OF OBSERVATIONS              %17d' % (3 * len(m['est'])), ' VARIANCE FACTOR                    1.000000000000000',
               '-SOLUTION/STATISTICS']
     L += block('SOLUTION/ESTIMATE', HDR_EST, (estimate_line(i + 1, e) for i, e in enumerate(m['est'])))
-    L += block('SOLUTION/MATRIX_ESTIMATE', HDR_MAT, matrix_lines(m['Q'], m['tri']), ' %s COVA' % m['tri'])
+    mat = matrix_lines(m['Q'], m['tri'], omit_zero_lines=bool(m['gen'].get('omit_zero_lines')))
+    if m['gen'].get('cpad'):
+        # a comment line of chosen length right after the block title: moves every record of the block by that many characters
+        # (a reader that works in fixed-size chunks meets a record boundary exactly on a chunk boundary for one of the lengths)
+        mat = ['*' + '-' * (int(m['gen']['cpad']) - 1)] + mat
+    L += block('SOLUTION/MATRIX_ESTIMATE', HDR_MAT, mat, ' %s COVA' % m['tri'])
     L.append(TRAILER)
     return L
 
